@@ -1239,21 +1239,35 @@ def check_C16(ctx):
         # the count decision as a table over the population count alone
         nn = atom("n", "u32")
         d2 = substitute(dag, lambda nd: nn if (nd[0] == "call" and nd[1] == "count_ones" and nd[2][0] is s) else None)
-        try:
-            consts, _ = cell_constants_loose(d2, "n")
-            for lo, hi in cell_representatives(consts | {2}, "u32"):
-                if lo > 64:
-                    continue
-                hi = min(hi, 64)
-                for nv in {lo, hi}:
-                    if nv == 2:
-                        continue
-                    r = evaluate(pdb, d2, {"n": nv, "s": (1 << nv) - 1 if nv < 64 else (1 << 64) - 1})
-                    vn = pdb.variant_name(r[1][1], r[1][2])
-                    exp = "NotEnoughCards" if nv < 2 else "TooManyCards"
-                    rep.ob("C16.count-table", "count %d" % nv, vn == "Err" and enum_name(pdb, r[2][0]) == exp, "population count %d gives %s" % (nv, enum_name(pdb, r[2][0]) if vn == "Err" else "Ok"), pdb.where(key))
-        except Uncertified as u:
-            rep.note("count table skipped: %s" % u.what)
+        # every population count 0..64 other than 2: with the count fixed, the result must be the constant error of
+        # that count — whatever else the set holds
+        for nv in range(65):
+            if nv == 2:
+                continue
+            exp = "NotEnoughCards" if nv < 2 else "TooManyCards"
+            dn_ = substitute(d2, lambda nd: C(nv, "u32") if nd is nn else None)
+            if "s" in atoms_of(dn_):
+                # still depends on the set: look for a set of that size on which it differs
+                import random
+                rnd_ = random.Random(rep.seed + nv)
+                cands = [(1 << nv) - 1 if nv < 64 else (1 << 64) - 1, (((1 << nv) - 1) << (64 - nv)) & ((1 << 64) - 1)] + [sum(1 << b for b in rnd_.sample(range(64), nv)) for _ in range(30)]
+                for mask_ in (0x8888888888888, 0x4444444444444, 0x1111111111111, 0xF000000000000, 0xFFF << 52):
+                    bits_ = [b for b in range(64) if mask_ >> b & 1]
+                    if len(bits_) >= nv:
+                        cands.append(sum(1 << b for b in bits_[:nv]))
+                badv = None
+                for val in cands:
+                    got = result(val)
+                    if got != ("Err", exp):
+                        badv = (val, got)
+                        break
+                if badv:
+                    rep.ob("C16.count-table", "count %d" % nv, False, "Two::try_from(%#x) (population count %d) = %s, expected Err(%s)" % (badv[0], nv, badv[1], exp), pdb.where(key))
+                else:
+                    rep.uncertified("C16.count-table", "for population count %d the result still depends on which members the set has; no counterexample among %d sets of that size, all of them cannot be certified" % (nv, len(cands)), pdb.where(key))
+                continue
+            vn = pdb.variant_name(dn_[1][1], dn_[1][2]) if dn_[0] == "agg" else "?"
+            rep.ob("C16.count-table", "count %d" % nv, vn == "Err" and enum_name(pdb, dn_[2][0]) == exp, "population count %d gives %s" % (nv, enum_name(pdb, dn_[2][0]) if vn == "Err" else vn), pdb.where(key))
         rep.sample({"rule": "C16", "two_bit_values": 2016, "example": {"set": hex((1 << 51) | (1 << 0)), "result": "Ok([ACE_SPADES, DEUCE_CLUBS])"}})
     with ctx.total("C16.no-panic"):
         ctx.guard("C16.conversion", conv)
